@@ -252,7 +252,9 @@ where
     where
         Self::Scalar: BaseFloat,
     {
-        Rad::acos(Self::dot(self, other) / (self.magnitude() * other.magnitude()))
+        let cos = Self::dot(self, other) / (self.magnitude() * other.magnitude());
+        // stay within the domain of acos()
+        Rad::acos(cos.min(Self::Scalar::one()).max(-Self::Scalar::one()))
     }
 
     /// Returns the
